@@ -69,6 +69,11 @@ func TestVerif_C37(t *testing.T) {
 			scs[i].Cfg.Bound = bound
 		}
 		scs[i].Cfg.MaxExec = capExec
+		if strings.HasPrefix(scs[i].Name, "C37/") && !r.Thorough() {
+			// the monitor scenarios are the only ones for Client / HostClient set-up races: twelve times the cap
+			// (a race on the Client's lazily created host maps needed more than 1200 schedules to be reached)
+			scs[i].Cfg.MaxExec = capExec * 12
+		}
 	}
 	r.Set("execution_cap_per_scenario", fmt.Sprint(capExec))
 	r.Set("scenarios", fmt.Sprint(len(scs)))
